@@ -960,6 +960,13 @@ func Run(r *fw.Run) {
 	r.Sample(caseT{Seed: sds[len(sds)/2], Setter: "SetRequireSeparateIndirect", Request: reqs[37]})
 	// go.work
 	ws := workSeeds(3)
+	// go.work files whose other blocks are out of order or hold duplicates (every block is in its documented
+	// order after the call, not only the one it edits)
+	ws = append(ws,
+		"go 1.21\n\nuse (\n\t./b\n\t./a // s0\n)\n\nreplace (\n\tb.com/y => ../y\n\ta.com/x v1.0.0 => ../x1\n\ta.com/x => ../x\n)\n",
+		"go 1.21\n\ngodebug (\n\tpanicnil=1\n\tasynctimerchan=0\n)\n\nuse ./a // s0\n",
+		"go 1.21\n\nuse \"./dir with space\"\n\nreplace (\n\tc.com/z => ../z\n\tb.com/y => ../y // r1\n)\n\ngodebug (\n\tx=2\n\tb=1\n)\n",
+		"go 1.21\n\nreplace (\n\tb.com/y => ../y\n\ta.com/x => ../x\n)\n")
 	r.Bounds["work_seeds"] = len(ws)
 	var wreq []string
 	ups := []string{"./a", "./b", "./dir with space", "./c"}
